@@ -107,6 +107,41 @@ def verify_der(pub_hex, sig, digest):
         return False
 
 
+def blank_entries(acc, rng, images, tmpdir, case, signonetime):
+    pubp = os.path.join(tmpdir, "pub-blank.txt")
+    paths = [im[0] for im in images]
+    k = rng.randrange(len(paths))
+    entries = paths[:k] + [rng.choice(["", " ", "  "])] + paths[k:]
+    cwd = os.getcwd()
+    os.chdir(tmpdir)      # (a stray ".sig" would land here)
+    try:
+        code, out = run_main(signonetime.main, ["signonetime.py", "-a", ",".join(entries),
+                                                "-p", pubp])
+    finally:
+        os.chdir(cwd)
+    acc.count("image_lists_with_a_blank_entry")
+    pub = open(pubp).read().strip() if os.path.exists(pubp) else None
+    for (p, areas, want) in images:
+        sp = p + ".sig"
+        if os.path.exists(sp):
+            try:
+                ok = pub is not None and verify_der(pub, bytes.fromhex(open(sp).read().strip()),
+                                                    want)
+            except ValueError:
+                ok = False
+            if not ok:
+                acc.violation("blank-entry:signature-file-of-an-image-is-not-for-that-image",
+                              {"image": os.path.basename(p), "exit": code}, case)
+            os.unlink(sp)
+        elif code == 0:
+            acc.violation("blank-entry:success-reported-but-an-image-was-not-signed",
+                          {"image": os.path.basename(p)}, case)
+    for f in (pubp, os.path.join(tmpdir, ".sig"), os.path.join(tmpdir, " .sig"),
+              os.path.join(tmpdir, "  .sig")):
+        if os.path.exists(f):
+            os.unlink(f)
+
+
 def tree(root):
     """every file below root (full paths)"""
     return {os.path.join(d, f) for d, _, fs in os.walk(root) for f in fs}
@@ -196,6 +231,11 @@ def run_case(acc, cseed, tmpdir, state):
         if code != 0 or text not in out:
             acc.violation("authorization-message-printed-names-other-hash",
                           {"code": code, "out": out[-200:], "want": text}, case)
+    # ---- a list of images with a blank entry in it (leading / doubled comma, ", ,"): the tool
+    # may turn the list down, or sign what is given - but whatever .sig it leaves behind
+    # for an image verifies for that image, and success means every image was signed
+    if len(images) >= 2 and rng.random() < 0.2:
+        blank_entries(acc, rng, images, tmpdir, case, signonetime)
     # ---- one-time signing
     pubp = os.path.join(tmpdir, "pub.txt")
     for f in [pubp] + [im[0] + ".sig" for im in images]:
